@@ -188,7 +188,7 @@ def snapshot_entities(it: Interp, names: List[str]):
     return out
 
 
-def entity_with_chops(rs: Stream, cfg_seed: int, mode=None, offset=None, straight: bool = False):
+def entity_with_chops(rs: Stream, cfg_seed: int, mode=None, offset=None, straight: bool = False, sources: str = "random"):
     """-> (construction ops, chop ops, entity names, snapshot, meta); chops placed per edge family.
     mode: complete / omit / conflict (drawn when None)"""
     ops, names = gen_entity(rs.sub("entity"), offset, straight=straight)
@@ -231,10 +231,15 @@ def entity_with_chops(rs: Stream, cfg_seed: int, mode=None, offset=None, straigh
         nsrc = 1 if cr.chance(0.7) else 2
         if root == clash:
             nsrc = max(2, nsrc)
+        if sources == "single":
+            nsrc = 1
         srcs = cr.sample(members, min(len(members), nsrc))
+        if sources == "all":
+            # every member chopped itself, plain counts (for models whose families may be cut by merged patches)
+            srcs = list(members)
         for si, (bi, a, _) in enumerate(srcs):
             args: Dict[str, Any] = {"count": c + (cr.pick([1, 2]) if (root == clash and si == 1) else 0)}
-            if cr.chance(0.3):
+            if sources != "all" and cr.chance(0.3):
                 args["c2c_expansion"] = round(cr.uniform(0.9, 1.15), 3)
                 if straight and nsrc == 1 and cr.chance(0.6):
                     args["preserve"] = cr.pick(["start_size", "end_size"])
@@ -244,6 +249,13 @@ def entity_with_chops(rs: Stream, cfg_seed: int, mode=None, offset=None, straigh
             else:
                 chops.append({"op": "sub_chop", "target": nme, "index": j, "axis": a, "args": args})
     meta["category"] = mode
+    # how far apart the entity's own construction leaves corners that coincide (joints: ~1e-9; most others: ~1e-16)
+    spread = 0.0
+    reps: Dict[int, List[float]] = {}
+    for i, pos in zip(ids, allpos):
+        r0 = reps.setdefault(i, pos)
+        spread = max(spread, max(abs(pos[k] - r0[k]) for k in range(3)))
+    meta["coincident_spread"] = spread
     return ops, chops, names, snap, meta
 
 
